@@ -65,7 +65,25 @@ def impl_parse_all(bs):
     except Exception as e:
         return 'err ' + exc_name(e), f'parse_all raised {type(e).__name__}: {e}'
     line = 'ok' + (' ' + canon_list(ms) if ms else '')
-    return line, parse_oracle(bs, ms)
+    fail = parse_oracle(bs, ms)
+    if fail is None and ms and len(bs) < 200:
+        # the messages handed out belong to the caller: what it does to them must not show up in a later parse
+        for m in ms:
+            m.time = 77
+            if m.type == 'sysex':
+                m.data = (1, 2, 3)
+            elif hasattr(m, 'channel'):
+                m.channel = (m.channel + 1) % 16
+        try:
+            again = mido.parse_all(bs)
+            line2 = 'ok' + (' ' + canon_list(again) if again else '')
+            if line2 != line or any(m.time != 0 for m in again):
+                fail = f'after the caller changed the messages of an earlier parse, the same bytes parse to {line2[:200]} (times {[m.time for m in again][:6]}) instead of {line[:200]}'
+            elif any(a is b for a in ms for b in again):
+                fail = 'two parses handed out the very same message object'
+        except Exception as e:
+            fail = f'second parse raised {type(e).__name__}: {e}'
+    return line, fail
 
 
 def strings_upto(alphabet, n):
